@@ -55,6 +55,7 @@ func c07Plan(rng *lib.Rand, idx uint64) *ref.Plan {
 		NoTimeZero:    true,
 		Mesgs:         lib.HostedMesgs(ft),
 		ZeroFieldDefs: 3,
+		RedefSimilar:  30,
 	}
 	if rng.Chance(1, 6) {
 		o.Mesgs = nil
